@@ -86,9 +86,16 @@ func runSeqIndex(p *core.Program, r *core.Report) {
 						return
 					}
 				}
+				kind := "slice"
+				if ptr, isPtr := x.X.Type().Underlying().(*types.Pointer); isPtr {
+					if _, isArr := ptr.Elem().Underlying().(*types.Array); isArr {
+						// buf[:n] on a fixed-size array: bounds are compared with the array length
+						kind = "array-slice"
+					}
+				}
 				for _, b := range []ssa.Value{x.Low, x.High, x.Max} {
 					if b != nil {
-						obs = append(obs, ob{x.X, b, "slice"})
+						obs = append(obs, ob{x.X, b, kind})
 					}
 				}
 			}
@@ -100,6 +107,20 @@ func runSeqIndex(p *core.Program, r *core.Report) {
 				}
 				seen[construct] = true
 				pos := p.InsPos(ins)
+				if o.kind == "array-slice" {
+					arrLen := o.base.Type().Underlying().(*types.Pointer).Elem().Underlying().(*types.Array).Len()
+					facts := fe.at(o.idx, ins, 0)
+					if c, isC := constInt(o.idx); isC && c >= 0 && c <= arrLen {
+						r.OK(rule, construct, pos, "constant bound within the array")
+					} else if needOK(facts, "ge0") && needOK(facts, "range:0:"+fmtInt(arrLen)) {
+						r.OK(rule, construct, pos, "slice bound within the array ["+facts.String()+"]")
+					} else if why, ok := seqIndexAudit[construct]; ok {
+						r.Audit(rule, construct, pos, why)
+					} else {
+						r.Bad(rule, construct, pos, "a fixed-size buffer is sliced with a bound not proven to be within it [known: "+facts.String()+"]")
+					}
+					continue
+				}
 				if o.kind == "array-index" {
 					arrLen := int64(-1)
 					t := o.base.Type().Underlying()
